@@ -192,10 +192,20 @@ pub mod proofs {
         let b = ok(unsafe { register(SB, || hit(2)) });
         assert!(b.is_some(), "C04: registering a catchable signal failed");
         kdeliver();
+        // "every later delivery": also once the signal's last action has been removed
+        // (by id, by signal) - the library's handler stays installed - and after a
+        // re-registration
+        assert!(signal_hook_registry::unregister(a.unwrap()), "C04: unregister of a live id returned false");
+        kdeliver();
+        let c = ok(unsafe { register(SA, || hit(3)) });
+        assert!(c.is_some(), "C04: registering a catchable signal failed");
+        kdeliver();
+        assert!(signal_hook_registry::unregister_signal(SA), "C04: unregister_signal of a signal with an action returned false");
+        kdeliver();
         verdict();
         let real = which >= 2;
-        assert!(!real || unsafe { D::chained } == 2, "C04: a delivery did not invoke the pre-existing handler exactly once");
-        assert!(unsafe { L::n } == 2, "C04: the registered action did not run on each delivery after the take-over");
+        assert!(!real || unsafe { D::chained } == 5, "C04: a delivery did not invoke the pre-existing handler exactly once");
+        assert!(unsafe { L::n } == 3, "C04: the registered action did not run on each delivery after the take-over");
         kani::cover!(which == 3, "three-argument handler chained");
         kani::cover!(which == 2 && unsafe { D::direct } == 1, "plain handler: one direct call before the take-over");
         kani::cover!(which == 1, "previous disposition ignore");
